@@ -17,6 +17,7 @@ import (
 	"github.com/getlantern/zenodb"
 	"github.com/getlantern/zenodb/common"
 	"github.com/getlantern/zenodb/core"
+	"github.com/getlantern/zenodb/rpc"
 	"github.com/getlantern/zenodb/web"
 	"github.com/gorilla/mux"
 	"github.com/gorilla/securecookie"
@@ -150,6 +151,32 @@ func c19CheckRPC(c *fw.Ctx, env *c19RPCEnv, cs c19Case) {
 		if !mustRefuse && rows == 0 {
 			c.Violate("C19", "rpc-refuses-valid-caller", fmt.Sprintf("%s: no rows, err=%v", desc, err), cs)
 			return
+		}
+		// the same call built by hand: whatever the (client-supplied) flags of the query message say, the
+		// credentials decide
+		if rows == 0 || !mustRefuse {
+			cc, derr := dialRawRPC(env.addrS)
+			if derr != nil {
+				c.Incomplete("raw dial: " + derr.Error())
+				return
+			}
+			defer cc.Close()
+			for flags := 0; flags < 16; flags++ {
+				q := &rpc.Query{SQLString: "SELECT * FROM t13", IncludeMemStore: flags&1 != 0, IsSubQuery: flags&2 != 0, Unflat: flags&4 != 0}
+				if flags&8 != 0 {
+					q.HasDeadline, q.Deadline = true, time.Now().Add(5*time.Second)
+				}
+				c.Eval(1)
+				md, n, qerr := rawRPCQuery(cc, c19Creds()[cs.Cred], q)
+				if mustRefuse && (md || n > 0) {
+					c.Violate("C19", "rpc-discloses-data-without-password", fmt.Sprintf("%s, hand-built query message %+v: metadata received=%v, %d rows (err=%v)", desc, *q, md, n, qerr), cs)
+					return
+				}
+				if !mustRefuse && flags&7 == 1 && n == 0 {
+					c.Violate("C19", "rpc-refuses-valid-caller", fmt.Sprintf("%s, hand-built query message %+v: no rows, err=%v", desc, *q, qerr), cs)
+					return
+				}
+			}
 		}
 	case "follow":
 		cl, err := dialRPC(env.addrL, cred)
@@ -577,7 +604,7 @@ func init() {
 		ID:          "C19",
 		Level:       "exploration",
 		NoThreads:   true,
-		Rule:        "the whole request lattice. RPC over real gRPC on 127.0.0.1: server password {unset, set} × client credential {none, wrong, right, proper prefix, right + 1 char} × endpoint {Query (rows), Follow (WAL entries), remote-query handler registration followed by a leader query (query text; forged row injection)}; web via web.Configure on httptest with known hash/block keys: OAuth {unset, set} × static password {unset, set} × credential {none, right token, wrong token, cookie signed with other keys, garbage cookie, well-signed cookie expiring in 1 h, expired 1 s ago, expired 30 days ago} × endpoint {/immediate, /async, /cached/{permalink} of an authorised result}; the identity provider (github.com token exchange, api.github.com org check) is an environment whose answers the harness prescribes through http.DefaultTransport: expired well-signed session × org answer {member, non-member, connection error, 401, 403, 500, garbage, empty list} × a second request carrying whatever session cookie the first response set × org answer {member, non-member, error}; OAuth callback with a valid state × token answer {token, connection error, 500, garbage, no token} × the 8 org answers, then a query with the session cookie the callback set; oracle: with a password / OAuth configured only the right password / right token / unexpired well-signed session obtains data, and valid callers are served; non-trivial = request that must be refused",
+		Rule:        "the whole request lattice. RPC over real gRPC on 127.0.0.1: server password {unset, set} × client credential {none, wrong, right, proper prefix, right + 1 char} × endpoint {Query (rows; also as hand-built messages with every combination of the client-supplied flags IncludeMemStore, IsSubQuery, Unflat, HasDeadline), Follow (WAL entries), remote-query handler registration followed by a leader query (query text; forged row injection)}; web via web.Configure on httptest with known hash/block keys: OAuth {unset, set} × static password {unset, set} × credential {none, right token, wrong token, cookie signed with other keys, garbage cookie, well-signed cookie expiring in 1 h, expired 1 s ago, expired 30 days ago} × endpoint {/immediate, /async, /cached/{permalink} of an authorised result}; the identity provider (github.com token exchange, api.github.com org check) is an environment whose answers the harness prescribes through http.DefaultTransport: expired well-signed session × org answer {member, non-member, connection error, 401, 403, 500, garbage, empty list} × a second request carrying whatever session cookie the first response set × org answer {member, non-member, error}; OAuth callback with a valid state × token answer {token, connection error, 500, garbage, no token} × the 8 org answers, then a query with the session cookie the callback set; oracle: with a password / OAuth configured only the right password / right token / unexpired well-signed session obtains data, and valid callers are served; non-trivial = request that must be refused",
 		Assumptions: []string{"the provider is reached through http.DefaultTransport (web.handler's http.Client has no transport of its own)", "a session counts as verified only if the provider confirmed org membership when it was issued or renewed", "a well-signed unexpired session cookie counts as verified (it is only issued after verification)"},
 		Shards:      func(tier string) int { return 4 },
 		Budget:      func(tier string) time.Duration { return 15 * time.Minute },
